@@ -464,4 +464,38 @@ Fixpoint run_trace (st : store) (next : positive) (ops : list op) : list (out * 
   | o :: r => let '(st1, x) := step st next o in (x, st1) :: run_trace st1 (bump next) r
   end.
 
+(* a legal order for every operation: the key list of whatever it ranges over (used to state that
+   legal orders exist, by the worked examples and by bin/incoq-mapset) *)
+Definition canonical_order (st : store) (o : op) : op :=
+  match o with
+  | OAddAll i j _ => OAddAll i j (m_keys (st j))
+  | ORemoveAll i j _ => ORemoveAll i j (m_keys (st j))
+  | OPop i _ => OPop i (m_keys (st i))
+  | OIntersect i js _ =>
+    OIntersect i js (match intersect_operand (map st js) with Ok m => m_keys m | _ => [] end)
+  | OIntersects i j _ => OIntersects i j (m_keys (fst (intersects_operands (st i) (st j))))
+  | OIsSubset i j _ => OIsSubset i j (m_keys (st i))
+  | OEquals i j _ => OEquals i j (m_keys (st i))
+  | OSlice i _ => OSlice i (m_keys (st i))
+  | OAppend i vs _ => OAppend i vs (m_keys (st i))
+  | o' => o'
+  end.
+
+
+(* the variable an operation may assign: every other variable keeps its value *)
+Definition target (o : op) : nat :=
+  match o with
+  | ONew i _ | ONewSize i _ | ONil i | OAdd i _ | OAddAll i _ _ | ORemove i _ | ORemoveAll i _ _
+  | OPop i _ | OClear i | OClone i _ | OIntersect i _ _ | ORange i _ | OKeys i _ | OValues i _
+  | OHas i _ | OHasAll i _ | OHasAny i _ | OLen i | OIsEmpty i | OIntersects i _ _
+  | OIsSubset i _ _ | OEquals i _ _ | OSlice i _ | OAppend i _ _ => i
+  end.
+Definition observer (o : op) : bool :=
+  match o with
+  | OHas _ _ | OHasAll _ _ | OHasAny _ _ | OLen _ | OIsEmpty _ | OIntersects _ _ _
+  | OIsSubset _ _ _ | OEquals _ _ _ | OSlice _ _ | OAppend _ _ _ => true
+  | _ => false
+  end.
+
+
 End Mapset.
